@@ -15,7 +15,7 @@ PROPERTY = "C04"
 LEVEL = "exploration"
 NEED_EXT = True
 REQUIRED = ["rows.single", "rows.subset", "rows.permutation", "rows.repeat", "state.unchanged", "pickle",
-            "clone_with_fitted_parameters", "exception.balanced_predictions", "asan.criterion_copy", "accessors.pure"]
+            "clone_with_fitted_parameters", "exception.balanced_predictions", "asan.criterion_copy", "accessors.pure", "rows.buffer_refilled_in_place"]
 RULE = ("every registered class with row-wise methods x configurations x label sets x batches made of training rows, "
         "perturbed rows, far rows (buckets / cells / leaves unseen at training time), exact duplicates and a single "
         "row; non-trivial = batch with >= 2 distinct rows routed to different buckets or classes; distinct = distinct "
@@ -181,6 +181,19 @@ def run_rows(case, ctx):
                             if again.shape != full.shape or not all(
                                     row_equal(full[i], again[i], integer) for i in range(n)):
                                 ctx.violation(K + "%s/repeated-call-differs" % m, "two identical calls differ", cfg=c2)
+                        if ok and isinstance(Q, numpy.ndarray) and n >= 2:
+                            # the same array object, refilled in place between two calls (a preallocated batch
+                            # buffer): the answer follows the content, not the identity of the container
+                            buf = Q.copy()
+                            first = spec.outputs(est, buf, [m])[m]
+                            perm2 = numpy.roll(numpy.arange(n), 1)
+                            buf[:] = Q[perm2]
+                            second = spec.outputs(est, buf, [m])[m]
+                            ctx.hit("rows.buffer_refilled_in_place")
+                            for pos, i in enumerate(perm2.tolist()):
+                                if not judge(i, second[pos], "in the same buffer refilled in place"):
+                                    break
+                            del first
                     except Exception as e:
                         ctx.violation(K + "%s/raised/%s" % (m, type(e).__name__),
                                       "a sub-batch call raised although the batch call works: %s" % str(e)[:150],
